@@ -22,7 +22,8 @@ JOBS = {'quick': 4, 'thorough': 16}
 REQUIRED_MONITORS = ('em_shape_contract', 'locality')
 REQUIRED_CLASSES = ('deformation:small', 'deformation:large', 'displaced:anchor', 'displaced:frame-neighbour',
                     'displaced:other', 'displacement:small', 'displacement:far', 'embedded:extrapolate',
-                    'geometry:generic', 'geometry:partial-collinear', 'geometry:linear-z')
+                    'geometry:generic', 'geometry:partial-collinear', 'geometry:linear-z', 'argument:same-object-mutated-in-place',
+                    'argument:fresh-copy')
 RULE = ('(reference, target, s) as in C01 x K deformed conformations (independent Gaussian displacement of every atom, sigma '
         '1%..100% of a bond length) with the shape contract on every call; locality: every reference atom displaced in turn '
         '(small / large / to a far-away point). Non-trivial: the conformation differs from the construction one and the map '
@@ -80,6 +81,15 @@ def run_gen(ctx, case):
         model = emap.__dict__['_gmv_model']
         ctx.hit('geometry:' + info['geometry'])
         bond = float(np.mean([np.linalg.norm(pos[a] - pos[b]) for a, b in edges]))
+        persistent = refm.copy()        # one argument object whose conformation is changed in place between calls
+
+        def argument(conf_, k_):
+            if k_ % 2:
+                persistent.atoms_positions = np.array(conf_, float)
+                ctx.hit('argument:same-object-mutated-in-place')
+                return persistent
+            ctx.hit('argument:fresh-copy')
+            return emmon.with_positions(refm, conf_)
         for c in range(K):
             frac = 10.0 ** rng.uniform(-2, 0)
             conf = pos + rng.normal(size=pos.shape) * bond * frac
@@ -91,7 +101,7 @@ def run_gen(ctx, case):
                 continue
             w = {'edges': edges, 'ref': pos, 'target': tpos, 's': s, 'conformation': conf}
             try:
-                out0 = np.array(emap(emmon.with_positions(refm, conf)).atoms_positions)   # shape contract fires here
+                out0 = np.array(emap(argument(conf, c)).atoms_positions)   # shape contract fires here
             except Exception as exc:  # noqa
                 ctx.violation(f'map-raises:{type(exc).__name__}', str(exc)[:200], witness=w)
                 continue
@@ -112,7 +122,7 @@ def run_gen(ctx, case):
                 else:
                     conf2[j] = conf[j] + rng.normal(size=3) * 500
                 try:
-                    out1 = np.array(emap(emmon.with_positions(refm, conf2)).atoms_positions)
+                    out1 = np.array(emap(argument(conf2, j + c)).atoms_positions)
                 except Exception as exc:  # noqa
                     ctx.violation(f'map-raises:{type(exc).__name__}', str(exc)[:200], witness=dict(w, displaced=j))
                     break
